@@ -49,6 +49,7 @@ type frame struct {
 	parent  *frame
 	defers  []*ast.CallExpr
 	bound   map[string]Val // extra name bindings (spec evaluation of callee contracts)
+	callPos token.Pos      // position of the call that this inlined frame expands
 }
 
 // flow collects abrupt exits of the innermost breakable statement.
